@@ -52,3 +52,166 @@ Print Assumptions C16_fen_total.
 Print Assumptions C16_fen_wellformed.
 Print Assumptions C16_fen_reparse.
 Print Assumptions C16_fen_roundtrip_legal.
+
+(* ---- appended by tools/mkprops.py: UCI dispatcher ---- *)
+(** UCI dispatcher: UciModel.handle / run transcribe handleReceivedCommand, positionCommand, setOptionCommand, readSearchLimits; UPanic = any Go panic (token index out of range, DoMove on a full history, nil position). from_uci is instantiated with NotationImpl.from_uci (C17). *)
+From Coq Require Import NArith ZArith List Bool.
+From FG Require Import Geom Rules FenSpec Oracle FenImpl NotationImpl NotationProofs RulesFacts UciModel UciProofs.
+Import ListNotations.
+
+Theorem C16_uci_total_notation :
+  forall (st : ustate) (line : str), ust_ok st -> handle from_uci st line <> UPanic.
+Proof. exact uci_total_notation. Qed.
+
+Theorem C16_uci_total_reachable_notation :
+  forall (c : cfg) (st : ustate) (lines : list str),
+         init_state c = Some st -> run from_uci st lines <> UPanic.
+Proof. exact uci_total_reachable_notation. Qed.
+
+Theorem C16_isready_answered :
+  forall (from_uci : pos -> str -> option mv) (st : ustate),
+         handle from_uci st
+           (b
+              (String.String (Ascii.Ascii true false false true false true true false)
+                 (String.String (Ascii.Ascii true true false false true true true false)
+                    (String.String (Ascii.Ascii false true false false true true true false)
+                       (String.String (Ascii.Ascii true false true false false true true false)
+                          (String.String (Ascii.Ascii true false false false false true true false)
+                             (String.String (Ascii.Ascii false false true false false true true false)
+                                (String.String (Ascii.Ascii true false false true true true true false)
+                                   String.EmptyString)))))))) = Done st [OReadyOk] Continue.
+Proof. exact isready_answered. Qed.
+
+Theorem C16_isready_ws_answered_notation :
+  (forall (q : pos) (s : str) (m : mv), from_uci q s = Some m -> In m (legal q)) ->
+         forall (st : ustate) (pre post : list N),
+         forallb is_ascii_space pre = true ->
+         forallb is_ascii_space post = true ->
+         handle from_uci st
+           (pre ++
+            b
+              (String.String (Ascii.Ascii true false false true false true true false)
+                 (String.String (Ascii.Ascii true true false false true true true false)
+                    (String.String (Ascii.Ascii false true false false true true true false)
+                       (String.String (Ascii.Ascii true false true false false true true false)
+                          (String.String (Ascii.Ascii true false false false false true true false)
+                             (String.String (Ascii.Ascii false false true false false true true false)
+                                (String.String (Ascii.Ascii true false false true true true true false)
+                                   String.EmptyString))))))) ++ post) = Done st [OReadyOk] Continue.
+Proof. exact isready_ws_answered_notation. Qed.
+
+Theorem C16_position_kept_on_error_notation :
+  forall (st : ustate) (toks : list str) (st' : ustate) (out : list out_line) (q : status),
+         position_cmd from_uci st toks = Done st' out q -> In (OInfo 10) out \/ In (OInfo 11) out -> st' = st.
+Proof. exact position_kept_on_error_notation. Qed.
+
+Theorem C16_position_invalid_fen_reported :
+  forall (from_uci : pos -> str -> option mv) (st : ustate) (t0 t1 : str) (rest : list str) 
+           (fen : str) (rem : list str) (e : N),
+         position_base t1 rest = Some (fen, rem) ->
+         setup fen = Err e -> position_cmd from_uci st (t0 :: t1 :: rest) = Done st [OInfo 11] Continue.
+Proof. exact position_invalid_fen_reported. Qed.
+
+Theorem C16_position_moves_spec_notation :
+  forall (st : ustate) (t0 t1 : str) (rest : list str) (fen : str) (toks : list str) 
+           (p0 : fpos) (st' : ustate) (out : list out_line) (q : status),
+         position_base t1 rest =
+         Some
+           (fen,
+            b
+              (String.String (Ascii.Ascii true false true true false true true false)
+                 (String.String (Ascii.Ascii true true true true false true true false)
+                    (String.String (Ascii.Ascii false true true false true true true false)
+                       (String.String (Ascii.Ascii true false true false false true true false)
+                          (String.String (Ascii.Ascii true true false false true true true false)
+                             String.EmptyString))))) :: toks) ->
+         setup fen = Ok p0 ->
+         (f_hmc p0 + Z.of_nat (length toks) < two63 - 1)%Z ->
+         position_cmd from_uci st (t0 :: t1 :: rest) = Done st' out q ->
+         (~ In (OInfo 14) out -> abs (u_pos st') = play from_uci (abs p0) toks) /\
+         ((f_nhm p0 + Z.of_nat (length toks) <= 2000000)%Z -> ~ In (OInfo 14) out).
+Proof. exact position_moves_spec_notation. Qed.
+
+Theorem C16_position_is_fold_notation :
+  forall (st : ustate) (t0 t1 : str) (rest : list str) (fen : str) (toks : list str) 
+           (ms : list mv) (p0 : fpos) (st' : ustate) (out : list out_line) (q : status),
+         position_base t1 rest =
+         Some
+           (fen,
+            b
+              (String.String (Ascii.Ascii true false true true false true true false)
+                 (String.String (Ascii.Ascii true true true true false true true false)
+                    (String.String (Ascii.Ascii false true true false true true true false)
+                       (String.String (Ascii.Ascii true false true false false true true false)
+                          (String.String (Ascii.Ascii true true false false true true true false)
+                             String.EmptyString))))) :: toks) ->
+         setup fen = Ok p0 ->
+         plays from_uci (abs p0) toks ms ->
+         (f_hmc p0 + Z.of_nat (length toks) < two63 - 1)%Z ->
+         (f_nhm p0 + Z.of_nat (length toks) <= 2000000)%Z ->
+         position_cmd from_uci st (t0 :: t1 :: rest) = Done st' out q ->
+         abs (u_pos st') = fold_left make ms (abs p0) /\ (u_hist st' <= RebaseAt)%nat /\ u_cfg st' = u_cfg st.
+Proof. exact position_is_fold_notation. Qed.
+
+Theorem C16_setoption_exact :
+  forall (st : ustate) (toks : list str) (name value : str) (h : handler),
+         setoption_parse toks = Some (name, value) ->
+         lookup name option_table = Some h ->
+         exists out : list out_line,
+           setoption_cmd st toks =
+           Done {| u_pos := u_pos st; u_hist := u_hist st; u_cfg := apply_handler h value (u_cfg st) |} out
+             Continue.
+Proof. exact setoption_exact. Qed.
+
+Theorem C16_apply_handler_field :
+  forall (h : handler) (v : str) (c : cfg) (f : field),
+         handler_field h = Some f -> apply_handler h v c f = handler_value h v.
+Proof. exact apply_handler_field. Qed.
+
+Theorem C16_apply_handler_frame :
+  forall (h : handler) (v : str) (c : cfg) (g : field),
+         handler_field h <> Some g -> apply_handler h v c g = c g.
+Proof. exact apply_handler_frame. Qed.
+
+Theorem C16_setoption_button :
+  forall (k : N) (v : str) (c : cfg), apply_handler (HButton k) v c = c.
+Proof. exact setoption_button. Qed.
+
+Theorem C16_setoption_unknown :
+  forall (st : ustate) (toks : list str) (name value : str),
+         setoption_parse toks = Some (name, value) ->
+         lookup name option_table = None -> setoption_cmd st toks = Done st [OInfo 2] Continue.
+Proof. exact setoption_unknown. Qed.
+
+Theorem C16_setoption_malformed :
+  forall (st : ustate) (toks : list str),
+         setoption_parse toks = None -> setoption_cmd st toks = Done st [OInfo 1] Continue.
+Proof. exact setoption_malformed. Qed.
+
+Theorem C16_setoption_keeps_position :
+  forall (st : ustate) (toks : list str) (st' : ustate) (out : list out_line) (q : status),
+         setoption_cmd st toks = Done st' out q -> u_pos st' = u_pos st /\ u_hist st' = u_hist st.
+Proof. exact setoption_keeps_position. Qed.
+
+Theorem C16_legal_keeps_safe :
+  forall (q : pos) (m : mv), safe_pos q = true -> In m (legal q) -> safe_pos (make q m) = true.
+Proof. exact legal_keeps_safe. Qed.
+
+Theorem C16_reachable_legal_pos :
+  forall (p : pos) (ms : list mv),
+         legal_pos p = true -> legal_line p ms -> legal_pos (fold_left make ms p) = true.
+Proof. exact reachable_legal_pos. Qed.
+
+Theorem C16_make_preserves_legal_pos :
+  forall (p : pos) (m : mv), legal_pos p = true -> In m (legal p) -> legal_pos (make p m) = true.
+Proof. exact make_preserves_legal_pos. Qed.
+
+Print Assumptions C16_uci_total_notation.
+Print Assumptions C16_uci_total_reachable_notation.
+Print Assumptions C16_isready_ws_answered_notation.
+Print Assumptions C16_position_kept_on_error_notation.
+Print Assumptions C16_position_is_fold_notation.
+Print Assumptions C16_setoption_exact.
+Print Assumptions C16_legal_keeps_safe.
+Print Assumptions C16_reachable_legal_pos.
+Print Assumptions C16_make_preserves_legal_pos.
